@@ -171,7 +171,7 @@ func genC06Case(rt *rapid.T) c06Case {
 		ids = append(ids, id)
 	}
 	sort.Slice(ids, func(i, j int) bool { return bytes.Compare(ids[i], ids[j]) < 0 })
-	base := sigTuple{Instance: 1000, Eon: uint64(rapid.IntRange(0, 3).Draw(rt, "eon")), Slot: uint64(rapid.IntRange(0, 1000).Draw(rt, "slot")), TxPointer: uint64(rapid.IntRange(0, 1000).Draw(rt, "ptr")), Identities: ids}
+	base := sigTuple{Instance: simInstanceID, Eon: uint64(rapid.IntRange(0, 3).Draw(rt, "eon")), Slot: uint64(rapid.IntRange(0, 1000).Draw(rt, "slot")), TxPointer: uint64(rapid.IntRange(0, 1000).Draw(rt, "ptr")), Identities: ids}
 	c.Presented = base
 	var notes []string
 	if rapid.IntRange(0, 3).Draw(rt, "presentOther") == 0 {
@@ -435,7 +435,7 @@ func TestC06_AccessNodeChain(t *testing.T) {
 			c06EonKeys[key] = ek
 		}
 		cfg := &gnosisaccessnode.Config{}
-		cfg.InstanceID = 1000
+		cfg.InstanceID = simInstanceID
 		cfg.MaxNumKeysPerMessage = 500
 		st := gnosisaccessnode.NewStorage()
 		st.AddEonKey(c.Presented.Eon, ek.EonPublicKey())
@@ -466,5 +466,73 @@ func TestC06_AccessNodeChain(t *testing.T) {
 			fatalf(rt, "valid-signatures-rejected", "access node rejected a keys message with a genuine threshold of signatures\n%s", c.Desc)
 		}
 		rec.Case("accessnode:"+c.Desc, nt, labels...)
+	})
+}
+
+// TestC06_KeyperChain runs the same cases through the keypers' complete
+// validator chains (combined topic validator of a Gnosis / Shutter-service
+// keyper node over the real schema on pgfake).
+func TestC06_KeyperChain(t *testing.T) {
+	rec := recorder("C06")
+	ctx := context.Background()
+	runRapid(t, N(200, 5000), func(rt *rapid.T) {
+		c := genC06Case(rt)
+		// the keyper chain also runs the core keys validator: give it an eon with a successful DKG and genuine keys
+		key := fmt.Sprintf("%d/%d", c.N, c.T)
+		ek := c06EonKeys[key]
+		if ek == nil {
+			var err error
+			ek, err = testkeygen.NewEonKeys(newDetReader("c06-"+key), uint64(c.N), uint64(c.T))
+			if err != nil {
+				rt.Fatalf("eon keys: %v", err)
+			}
+			c06EonKeys[key] = ek
+		}
+		fl := flService
+		if c.Gnosis {
+			fl = flGnosis
+		}
+		node := newSimNode(fl, 0, 8)
+		defer node.Close()
+		es := &eonSetup{KeyperConfigIndex: int(c.Presented.Eon), Eon: 50, Activation: 10, Members: seq(c.N), Threshold: c.T, Keys: ek}
+		if err := writeBatchConfigAndEon(ctx, node.DB, es, true); err != nil {
+			rt.Fatalf("setup: %v", err)
+		}
+		if err := writeDKGResult(ctx, node.DB, es, 0, true); err != nil {
+			rt.Fatalf("setup: %v", err)
+		}
+		sorted := sort.SliceIsSorted(c.Presented.Identities, func(i, j int) bool {
+			return bytes.Compare(c.Presented.Identities[i], c.Presented.Identities[j]) < 0
+		})
+		msg := c.message(func(id []byte) []byte {
+			k, err := ek.EpochSecretKey(identitypreimage.IdentityPreimage(id))
+			if err != nil {
+				panic(err)
+			}
+			return k.Marshal()
+		})
+		msg.InstanceId = c.Presented.Instance
+		want := c.expected() && c.Presented.Instance == simInstanceID && sorted
+		// instance 1000 is what the cases sign over; the node is configured with simInstanceID
+		if c.Presented.Instance != simInstanceID {
+			want = false
+		}
+		v := node.Validate(msg.Topic(), mustMarshalP2P(msg))
+		if !checkEngine(t, rec, node.DB) {
+			rt.Fatalf("inconclusive")
+		}
+		nt, labels := c06Labels(&c, want)
+		labels = append(labels, "keyper-chain")
+		got := v.Accepted()
+		if v.Panicked != nil {
+			labels = append(labels, "validator-panicked")
+		}
+		if got && !want {
+			fatalf(rt, "accepted-without-threshold-signatures", "keyper validator chain accepted a keys message the rule forbids\n%s", c.Desc)
+		}
+		if !got && want && v.Panicked == nil {
+			fatalf(rt, "valid-signatures-rejected", "keyper validator chain rejected a keys message with a genuine threshold of signatures (%s)\n%s", v, c.Desc)
+		}
+		rec.Case("keyperchain:"+c.Desc, nt, labels...)
 	})
 }
